@@ -8,6 +8,7 @@ import json, os, random, time
 from vlib import *
 import defs as D
 import linegen
+import cmdline_sig
 
 
 def sample_cases(path, k=3, pred=None):
@@ -69,16 +70,21 @@ def run_cmdline_property(v, family, design_cfg, replay_cfg="MC_CmdLine_replay.cf
         os.remove(hooks)
     cov["replayed"] = summ["cases"]
     cov["impl_classes"] = summ["classes"]
-    n_out = 0
+    n_out = n_f16 = 0
     for m in read_ndjson(mm):
         if m.get("outside"):
             n_out += 1
             continue
         if judge and not judge(m):
             continue
+        if v.pid not in ("C10", "C19") and cmdline_sig.is_f16(m):      # F16 is C10's and C19's to report
+            n_f16 += 1
+            continue
         sig = signature(m) if signature else {"rule": "outcome_mismatch"}
         v.report(sig, {k: m[k] for k in m if k not in ("def_full",)} | {"def": m.get("def_full", m.get("def"))})
     cov["outside_quantifier_informational"] = n_out
+    if n_f16:
+        cov["f16_cases_left_to_C10_C19"] = n_f16
     nontriv = 0
     for c in read_ndjson(cases):
         if c["line"] and not c.get("outside"):
@@ -167,6 +173,8 @@ def run_driver(v, hbin, driver, name, signature, trace_module="CmdLineTrace"):
                 continue
             m = {"def": rec["def"], "def_full": dmap[rec["def"]], "line": rec["line"], "env": rec["env"], "got": rec["got"],
                  "argv_bytes": rec["argv"], "expect": exp, "from": "trace-validation"}
+            if v.pid not in ("C10", "C19") and cmdline_sig.is_f16(m):
+                continue
             sig = signature(m) if signature else {"rule": "trace_rejected"}
             v.report(sig, m)
     return n
